@@ -235,6 +235,21 @@ def _run_sim(case):
     except Exception as e:
         return violated(sig, "%s raised %s: %s" % (sim, type(e).__name__, str(e)[:200]), wit,
                         mech="raised:" + sim)
+    if sim != "abrm_ptx" and case["sseed"] % 3 == 1 and np.ndim(rf) == 1:
+        # the same pulse stored as an (Nt, 1) column vector (what scipy.io.loadmat returns):
+        # the same rotation
+        try:
+            ac, bc = simulate(sim, rf.reshape(-1, 1), x, g, extra)
+        except Exception as e:
+            return violated(sig, "%s raised %s for a pulse stored as an (Nt, 1) column vector"
+                            % (sim, type(e).__name__), wit, mech="column-rf:" + sim)
+        ec = float(max(np.max(np.abs(ac - a)), np.max(np.abs(bc - b)))) if ac.shape == a.shape \
+            else np.inf
+        checks += 1
+        if not ec <= 1e-12:
+            return violated(sig, "%s: the pulse as an (Nt, 1) column vector gives another "
+                            "rotation than the same pulse as a 1-D array (max difference "
+                            "%.3g)" % (sim, ec), wit, mech="column-rf:" + sim)
     npos = a.size
     if not (np.all(np.isfinite(a)) and np.all(np.isfinite(b))):
         return violated(sig, "%s returned non-finite Cayley-Klein parameters (NaN/inf at %d of "
